@@ -113,7 +113,10 @@ func (n *smNode) voterList() string {
 
 var errSMNoSnapshot = errors.New("no snapshot")
 
-type smSnapshotter struct{ ss pb.Snapshot }
+type smSnapshotter struct {
+	ss     pb.Snapshot
+	loadOK bool // Load succeeds without doing anything (node dimension: the user state machine has no state)
+}
 
 func (s *smSnapshotter) GetSnapshot() (pb.Snapshot, error) {
 	if pb.IsEmptySnapshot(s.ss) {
@@ -130,6 +133,9 @@ func (s *smSnapshotter) Save(hooks.ISavable, hooks.SSMeta) (pb.Snapshot, hooks.S
 	return pb.Snapshot{}, hooks.SSEnv{}, errors.New("not used")
 }
 func (s *smSnapshotter) Load(pb.Snapshot, hooks.ILoadable, hooks.IRecoverable) error {
+	if s.loadOK {
+		return nil
+	}
 	return errors.New("not used")
 }
 
